@@ -23,7 +23,18 @@ type FnResult struct {
 	Contract *Contract
 }
 
+// verifyFunction generates the verification conditions of fn twice and keeps the second result: which heap
+// families hold references is learnt while families are first used (refFams), and the heap-wide invariants for
+// a family are stated when it first appears on a path — the first pass makes that knowledge complete, so every
+// path of the second pass is generated under the same invariants regardless of exploration order.
 func (e *Engine) verifyFunction(fn *ssa.Function, con *Contract, pathLimit int) (res *FnResult) {
+	if fn.Blocks != nil && !(con != nil && con.Trusted) {
+		e.verifyFunctionOnce(fn, con, pathLimit)
+	}
+	return e.verifyFunctionOnce(fn, con, pathLimit)
+}
+
+func (e *Engine) verifyFunctionOnce(fn *ssa.Function, con *Contract, pathLimit int) (res *FnResult) {
 	res = &FnResult{Fn: shortFn(fn), Contract: con}
 	if con != nil {
 		res.File = con.File
